@@ -4,6 +4,7 @@ import (
 	"bytes"
 	"fmt"
 	"math/rand"
+	"regexp"
 	"time"
 )
 
@@ -69,9 +70,26 @@ func (cs *SynCase) convertDesc(d map[string]any) {
 	}
 }
 
-// recordSynTraces runs the histories on the real parsers (one driver run) and attaches the
-// recorded events.
+// recordSynTraces runs the histories on the real parsers and attaches the recorded events.
+// A Parse that does not return is ended by the driver's watchdog; its trace ends with a "hang"
+// event (which no model action matches) and the histories not yet run are run in a new process.
 func (c *Ctx) recordSynTraces(b *SynBatch, hs []*synHistory) {
+	pending := hs
+	for round := 0; round < 6 && len(pending) > 0; round++ {
+		pending = c.recordSynTracesOnce(b, pending)
+	}
+	for _, h := range pending {
+		// never run because earlier parses kept hanging: leave a marker trace
+		h.Events = nil
+		for range h.Inputs {
+			h.Events = append(h.Events, []map[string]any{{"ev": "notrun"}})
+		}
+	}
+}
+
+var reHang = regexp.MustCompile(`(?m)^@@HANG (\d+) (\d+) (\d+)$`)
+
+func (c *Ctx) recordSynTracesOnce(b *SynBatch, hs []*synHistory) []*synHistory {
 	byCase := map[*SynCase][]*synHistory{}
 	var order []*SynCase
 	for _, h := range hs {
@@ -97,12 +115,27 @@ func (c *Ctx) recordSynTraces(b *SynBatch, hs []*synHistory) {
 		ops = append(ops, op)
 	}
 	_, stdout := b.Drv.Run(ops)
+	hung := [3]int{-1, -1, -1}
+	if b.Drv.Hung {
+		if m := reHang.FindStringSubmatch(stdout); m != nil {
+			hung = [3]int{atoi(m[1]), atoi(m[2]), atoi(m[3])}
+		}
+		c.Add("parses_ended_by_watchdog", 1)
+	}
 	evs := splitParseStdout(stdout)
+	var notRun []*synHistory
 	for oi, cs := range order {
 		for hi, h := range byCase[cs] {
+			if hung[0] >= 0 && (oi > hung[0] || oi == hung[0] && hi > hung[1]) {
+				notRun = append(notRun, h)
+				continue
+			}
 			h.Events = nil
 			for ii := range h.Inputs {
 				es := evs[[3]int{oi, hi, ii}]
+				if oi == hung[0] && hi == hung[1] && ii > hung[2] {
+					es = []map[string]any{{"ev": "notrun"}}
+				}
 				for _, e := range es {
 					if args, ok := e["args"].([]any); ok {
 						for _, a := range args {
@@ -127,6 +160,7 @@ func (c *Ctx) recordSynTraces(b *SynBatch, hs []*synHistory) {
 			}
 		}
 	}
+	return notRun
 }
 
 // traceLines renders the histories as ndjson for LRTrace.tla.
